@@ -459,6 +459,7 @@ func runC15(c *Ctx) {
 }
 
 func runC16(c *Ctx) {
+	defer c02RecordDescribes(c, "C16.14")
 	w := c.W
 	c.Rule("C16.1", "pages enter memory only through fetch: the data file is read (ReadAt) only there, on the miss edge of LRUCache.get, and the decoded page is registered in the cache before it is returned; the hit path goes through LRUCache.get (which refreshes recency)")
 	c.Rule("C16.2", "a page is marked clean only by the flush after its own successful write (clean implies equal to the disk image)")
